@@ -42,21 +42,25 @@ Proof.
 Qed.
 
 Lemma style_eq b p bo :
-  (match cf_style (op_config (port_config b p) bo) with Some s => s | None => m_default_style end) = effective_style b bo.
+  (match cf_style (set_default_style (op_config (port_config b p) bo)) with Some s => s | None => m_default_style end)
+  = effective_style b bo.
 Proof.
-  unfold op_config, port_config, effective_style. rewrite c_document.
-  destruct (bo_soap bo) as [so|]; cbn; [destruct (so_style so); reflexivity|reflexivity].
+  unfold set_default_style, op_config, port_config, effective_style. rewrite c_document.
+  destruct (bo_soap bo) as [so|]; cbn; [destruct (so_style so); cbn|]; destruct (obind (b_soap b) sb_style); reflexivity.
 Qed.
 
-Lemma style_declared b p bo :
-  is_some (obind (bo_soap bo) so_style) || is_some (obind (b_soap b) sb_style) = true ->
-  cf_style (op_config (port_config b p) bo) = Some (effective_style b bo).
+Lemma style_published b p bo :
+  cf_style (set_default_style (op_config (port_config b p) bo)) = Some (effective_style b bo).
 Proof.
-  unfold op_config, port_config, effective_style.
-  destruct (bo_soap bo) as [so|]; cbn.
-  - destruct (so_style so); cbn; [reflexivity|]. destruct (obind (b_soap b) sb_style); [reflexivity|discriminate].
-  - destruct (obind (b_soap b) sb_style); [reflexivity|discriminate].
+  unfold set_default_style, op_config, port_config, effective_style. rewrite c_document.
+  destruct (bo_soap bo) as [so|]; cbn; [destruct (so_style so); cbn|]; destruct (obind (b_soap b) sb_style); reflexivity.
 Qed.
+
+Lemma default_style_other b p bo :
+  cf_location (set_default_style (op_config (port_config b p) bo)) = cf_location (op_config (port_config b p) bo)
+  /\ cf_transport (set_default_style (op_config (port_config b p) bo)) = cf_transport (op_config (port_config b p) bo)
+  /\ cf_action (set_default_style (op_config (port_config b p) bo)) = cf_action (op_config (port_config b p) bo).
+Proof. unfold set_default_style. destruct (cf_style _); repeat split; reflexivity. Qed.
 
 Lemma action_eq b p bo : cf_action (op_config (port_config b p) bo) = obind (bo_soap bo) so_action.
 Proof. unfold op_config, port_config. destruct (bo_soap bo) as [so|]; cbn; [destruct (so_action so)|]; reflexivity. Qed.
@@ -109,7 +113,7 @@ Section Ops.
     destruct (clause_list _) eqn:Ecl in Hfind; [|discriminate]. clear Hfind.
     apply clause_list_nil in Ecl. cbn [forallb snd] in Ecl.
     apply andb_true_iff in Ecl as [C1 Ecl]. apply andb_true_iff in Ecl as [C2 Ecl].
-    apply andb_true_iff in Ecl as [C3 Ecl]. apply andb_true_iff in Ecl as [C4 Ecl].
+    apply andb_true_iff in Ecl as [C3 Ecl].
     apply andb_true_iff in Ecl as [C5 Ecl]. apply andb_true_iff in Ecl as [C6 Ecl].
     apply andb_true_iff in Ecl as [C7 Ecl]. apply andb_true_iff in Ecl as [C9 _].
     apply andb_true_iff in C1 as [C1i C1o]. apply negb_true_iff in C9.
@@ -141,7 +145,7 @@ Section Ops.
     exists po.
     exists (mk_op_res ((msi ++ [ti]) ++ (mso ++ [to]))
                       (AClass (t, name) None TagBindingOperation None
-                         (const_attrs (op_config (port_config b p) bo)
+                         (const_attrs (set_default_style (op_config (port_config b p) bo))
                           ++ [build_attr m_input (c_qname ti) false false None None (Some ti);
                               build_attr m_output (c_qname to) false false None None (Some to)]) [])
                       (mk_sd (pt_name pt ++ s_underscore ++ bo_name bo) (Some style) (port_address p)
@@ -152,6 +156,7 @@ Section Ops.
     split.
     { (* the mapper's output *)
       unfold map_binding_operation. rewrite style_eq. fold style. fold name.
+      destruct (default_style_other b p bo) as [Dl [Dt Da]]. rewrite Dt.
       replace (operation_namespace (cf_transport (op_config (port_config b p) bo))) with (Some m_soap_env).
       2:{ unfold op_config, port_config. destruct (bo_soap bo); cbn [cf_transport]; rewrite Hsb; cbn [obind]; rewrite Htr; reflexivity. }
       unfold map_binding_operation_messages. rewrite Ebi, Ebo, Epi, Epo', Emi, Emo.
@@ -197,7 +202,8 @@ Section Ops.
     pose proof (Hdeci all Hinv Hinci) as Di. pose proof (Hdeco all Hinv Hinco) as Do.
     (* constants: style, location, transport are set; soapAction when it is a non-empty string *)
     unfold decode_service. cbn [c_name c_qname snd].
-    unfold const_attrs. rewrite (style_declared b p bo C4), action_eq. fold style.
+    destruct (default_style_other b p bo) as [Dl [Dt Da]].
+    unfold const_attrs. rewrite (style_published b p bo), Dl, Dt, Da, action_eq. fold style.
     replace (cf_location (op_config (port_config b p) bo)) with (Some loc)
       by (unfold op_config, port_config; destruct (bo_soap bo); cbn; rewrite Hloc; reflexivity).
     replace (cf_transport (op_config (port_config b p) bo)) with (Some SOAP_HTTP)
